@@ -203,10 +203,11 @@ type vC18Round struct {
 	ext     []byte
 	at      time.Time
 	cutNano int64
+	offset  uint64 // robust.MessageOffset of the round (0, or the production default)
 }
 
 func (r *vC18Round) String() string {
-	return fmt.Sprintf("mode=%s base index=%d term=%d extensions=%s appended=%s compaction cut=%dns", r.mode, r.base, r.term, vC18Bytes(r.ext), r.at.Format(time.RFC3339Nano), r.cutNano)
+	return fmt.Sprintf("mode=%s base index=%d term=%d extensions=%s appended=%s compaction cut=%dns message offset=%d", r.mode, r.base, r.term, vC18Bytes(r.ext), r.at.Format(time.RFC3339Nano), r.cutNano, r.offset)
 }
 
 type vC18Ctx struct {
@@ -346,9 +347,8 @@ func TestVerifC18FSM(t *testing.T) {
 		nshards = 1
 	}
 	thorough := os.Getenv("VERIF_TIER") == "thorough"
-	if robust.MessageOffset != 0 {
-		t.Fatalf("harness assumes robust.MessageOffset == 0 in the test binary")
-	}
+	defer func() { robust.MessageOffset = 0 }()
+	offsets := []uint64{0, 4648398125000000000} // 0 and the default of -robustirc_message_offset
 
 	modes := []string{"protobuf", "JSON", "JSON snapshot restored with protobuf"}
 	bases := []uint64{1, 7, 1 << 40}
@@ -370,7 +370,10 @@ func TestVerifC18FSM(t *testing.T) {
 				for _, e := range exts {
 					for _, at := range times {
 						for _, cut := range cuts {
-							rounds = append(rounds, vC18Round{m, b, tm, e, at, cut})
+							// the offset dimension is spread over the other dimensions (every combination of
+							// mode x base index gets both offsets) to keep the grid size
+							off := offsets[(len(rounds)/len(cuts))%len(offsets)]
+							rounds = append(rounds, vC18Round{m, b, tm, e, at, cut, off})
 						}
 					}
 				}
@@ -403,6 +406,7 @@ func TestVerifC18FSM(t *testing.T) {
 			t.Fatal(err)
 		}
 		*raftDir = dir
+		robust.MessageOffset = rd.offset
 		*useProtobuf = rd.mode == "protobuf"
 		// compactionEnd = Unix(0, canaryCompactionStart) - (sessionExpiration + expireSessionsInterval) = Unix(0, cut)
 		*canaryCompactionStart = rd.cutNano + int64(exp+expireSessionsInterval)
